@@ -20,6 +20,7 @@ mod docs;
 mod jsonbytes;
 mod mainglue;
 mod htmlbytes;
+mod dm;
 
 fn want_map(rs: &RS, lines: bool, branches: bool, fns: bool) -> BTreeMap<String, CovResult> {
     rs.iter()
@@ -488,6 +489,7 @@ pub fn run(rep: &mut Report) {
     cobbytes::run(rep);
     mainglue::run(rep);
     htmlbytes::run(rep);
+    dm::run(rep);
 }
 
 fn html_case(rep: &mut Report, rng: &mut Rng, rs: &RS, reqs: &mut Vec<String>, impl_arr: &mut Vec<String>) {
@@ -561,6 +563,7 @@ pub fn replay(rep: &mut Report, case: &serde_json::Value) {
     if case["op"].as_str().map(|o| o.starts_with("c03.json.")).unwrap_or(false) { return jsonbytes::replay(rep, case); }
     if case["op"].as_str().map(|o| o.starts_with("main.")).unwrap_or(false) { return mainglue::replay(rep, case); }
     if case["op"].as_str().map(|o| o.starts_with("c03.htmlb.")).unwrap_or(false) { return htmlbytes::replay(rep, case); }
+    if case["op"].as_str() == Some("c03.lcov") { return dm::replay(rep, case); }
     rep.notes.push(format!("replay: re-run ./check C03 with the same seed (format {})", case["format"]));
 }
 
